@@ -3,6 +3,7 @@ import gens_total
 from props.common import TRUSTED_BASE, ASSUMPTIONS
 
 ID = "C10"
+FORMAT_GROUP = "total"
 LEAN_MODULES = ["LexVerif.Props.C10", "LexVerif.Props.C10Debug"]
 GEN = []
 PROFILES = {"quick": ["release", "dbg"], "thorough": ["release", "dbg"]}
